@@ -5,5 +5,5 @@ package osfs
 
 func devModesSplit(rdev uint64) (major int64, minor int64) {
 	// Constants herein are not a joy: they're a workaround for https://github.com/golang/go/issues/8106
-	return int64((rdev >> 8) & 0xff), int64((rdev & 0xff) | ((rdev >> 12) & 0xfff00))
+	return int64((rdev >> 8) & 0xfff), int64((rdev & 0xff) | ((rdev >> 12) & 0xfff00))
 }
